@@ -182,6 +182,31 @@ func checkC16(c c16Case, rec *Rec) *Violation {
 		}
 		rec.Label("proxy-end-to-end")
 		return nil
+	case "engine-referrer-urlblock", "engine-with-stealth":
+		// engine-referrer-urlblock: the page is requested from a referrer under a $urlblock exception and an $important
+		// blocking rule matches the page too; the referrer-level exception takes the block away, the page's own
+		// exception decides the option.  engine-with-stealth: a $stealth exception (special-purpose, also with
+		// $important) stands next to the page's exception; it never decides the option.
+		text := c16RuleText(c) + "\n@@||ref.example^$urlblock\n||example.org^$important\n"
+		referrer := "http://ref.example/"
+		if c.Kind == "engine-with-stealth" {
+			text = "@@||example.org^$stealth,important\n" + c16RuleText(c) + "\n@@||example.org^$stealth\n"
+			referrer = ""
+		}
+		st, err := filterlist.NewRuleStorage([]filterlist.RuleList{&filterlist.StringRuleList{ID: 1, RulesText: text}})
+		if err != nil {
+			return viol(id, "C16:harness", "storage: %v", err)
+		}
+		w := rules.CosmeticOptionAll &^ c16Disabled(c.Mods)
+		res := urlfilter.NewEngine(st).MatchRequest(rules.NewRequest("http://example.org/", referrer, rules.TypeDocument))
+		if g := res.GetCosmeticOption(); g != w {
+			sig := "C16:option-mismatch"
+			if g&^w != 0 {
+				sig = "C16:option-reenabled"
+			}
+			return viol(id, sig+":"+c.Kind, "list %q, page requested from %q: GetCosmeticOption=%03b, reference %03b", text, referrer, g, w)
+		}
+		return nil
 	case "engine-with-important-block":
 		// an $important blocking rule matches the page as well, listed before or after the exception:
 		// an $important exception still decides the verdict, any other exception does not
@@ -337,7 +362,7 @@ func TestC16(t *testing.T) {
 		if shard() != 0 {
 			return nil
 		}
-		for _, kind := range []string{"exception", "engine", "block", "referrer-struct", "referrer-engine", "with-replace-rules", "engine-with-important-block", "proxy"} {
+		for _, kind := range []string{"exception", "engine", "block", "referrer-struct", "referrer-engine", "with-replace-rules", "engine-with-important-block", "engine-referrer-urlblock", "engine-with-stealth", "proxy"} {
 			for mask := 0; mask < 1<<len(c16Mods); mask++ {
 				c := c16Case{Kind: kind, Mods: c16Subset(mask)}
 				rec.Eval()
